@@ -1,6 +1,6 @@
 (* C09 — the cluster update is weight-preserving and reversible. *)
 From Coq Require Import List QArith ZArith NArith Bool Arith.
-From QmcV Require Import Model.Prog Model.Sse Model.Nav Model.Cluster Model.ClusterValid Proofs.ProgLemmas Proofs.ClusterProofs Proofs.ClusterFlipProofs Model.Diagonal Proofs.Expect Proofs.SweepStationary Proofs.GroupKernel Proofs.TimestepStationary.
+From QmcV Require Import Model.Prog Model.Sse Model.Nav Model.Cluster Model.ClusterValid Proofs.ProgLemmas Proofs.ClusterProofs Proofs.ClusterFlipProofs Model.Diagonal Proofs.Expect Proofs.SweepStationary Proofs.GroupKernel Proofs.TimestepStationary Check.Common Proofs.ValidatedPipeline.
 Import ListNotations.
 
 (* whatever labelling and whatever flip outcomes: number, positions, bonds, variables and
@@ -104,3 +104,19 @@ Theorem C09_weighted_cluster_update_stationary : forall H wfn beta xs,
   NoDup xs -> cluster_ready_w H wfn xs -> wstat xs (fun c => sse_weight H beta (snd c)) (cluster_cfg_w wfn).
 Proof. exact cluster_kernel_w_stationary. Qed.
 Print Assumptions C09_weighted_cluster_update_stationary.
+
+(* with the validators folded into the kernel (run the cluster update iff the labelling is accepted) the cluster
+   stage is stationary on the COMPLETE configuration space of every flip-symmetric table: flips of a validated
+   configuration stay validated, consistent, legal and in the space *)
+Theorem C09_validated_cluster_update_stationary : forall H nv L beta,
+  sym_ham H -> wstat (canon H (all_substates nv) L) (fun c => sse_weight H beta (snd c)) cluster_cfg_v.
+Proof. intros H nv L beta Hs. exact (cluster_v_stationary H Hs nv L beta). Qed.
+Print Assumptions C09_validated_cluster_update_stationary.
+
+Theorem C09_flip_of_validated_stays_validated : forall H nv L st sl b ncl fl,
+  sym_ham H ->
+  In (st, sl) (canon H (all_substates nv) L) -> Nat.eqb (count_ops sl) 0 = false -> decompose sl = Some (b, ncl) ->
+  links_ok sl b = true -> sides_ok sl b = true -> vars_in_range (length st) sl = true ->
+  In (cl_act (st, sl) fl) (canon H (all_substates nv) L) /\ cluster_valid (cl_act (st, sl) fl) = true.
+Proof. intros H nv L st sl b ncl fl Hs. exact (flip_of_valid H Hs nv L st sl b ncl fl). Qed.
+Print Assumptions C09_flip_of_validated_stays_validated.
